@@ -260,6 +260,17 @@ var c05cells = []c05cell{
 	uploadCell("upload-file:under-uploads", []int{hlref.PrivUploadFile, hlref.PrivUploadAnywhere}, p1("Uploads", "sub")),
 	uploadCell("upload-file:elsewhere", []int{hlref.PrivUploadFile, hlref.PrivUploadAnywhere}, p1("other")),
 	uploadCell("upload-file:root", []int{hlref.PrivUploadFile, hlref.PrivUploadAnywhere}, nil),
+	// resuming somebody's partial upload is an upload like any other
+	{name: "upload-file:resume-elsewhere", effects: [][]int{{hlref.PrivUploadFile, hlref.PrivUploadAnywhere}}, run: func(x *c05ctx) (*hlref.Tran, []bool) {
+		r := x.req.Request(hlref.TranUploadFile, sfld(hlref.FFileName, "left.bin"), fld(hlref.FFilePath, p1("other")), fld(hlref.FFileTransferOptions, hlref.BE16(2)))
+		_, ref := r.Get(hlref.FRefNum)
+		return r, []bool{okReply(r) && ref}
+	}},
+	{name: "upload-file:resume-in-uploads", effects: [][]int{{hlref.PrivUploadFile}}, run: func(x *c05ctx) (*hlref.Tran, []bool) {
+		r := x.req.Request(hlref.TranUploadFile, sfld(hlref.FFileName, "left.bin"), fld(hlref.FFilePath, p1("Uploads")), fld(hlref.FFileTransferOptions, hlref.BE16(2)))
+		_, ref := r.Get(hlref.FRefNum)
+		return r, []bool{okReply(r) && ref}
+	}},
 	uploadFolderCell("upload-folder:into-uploads", []int{hlref.PrivUploadFolder}, p1("Uploads")),
 	uploadFolderCell("upload-folder:into-dropbox", []int{hlref.PrivUploadFolder}, p1("Drop Box")),
 	uploadFolderCell("upload-folder:elsewhere", []int{hlref.PrivUploadFolder, hlref.PrivUploadAnywhere}, p1("other")),
@@ -530,6 +541,9 @@ func c05run(rt *rapid.T, cell *c05cell, bits hlref.Access, via ...string) bool {
 		}
 		_ = writeFile(filepath.Join(w.FileRoot, "dir", "Drop Box"), "hidden.txt", []byte("hidden"))
 		_ = writeFile(filepath.Join(w.FileRoot, "dir", "deep"), "d.txt", []byte("deep"))
+		// partial uploads somebody left behind
+		_ = writeFile(filepath.Join(w.FileRoot, "other"), "left.bin.incomplete", []byte("first half"))
+		_ = writeFile(filepath.Join(w.FileRoot, "Uploads"), "left.bin.incomplete", []byte("first half"))
 		// aliases whose target is gone (made, then the target was deleted)
 		_ = os.Symlink(filepath.Join(w.FileRoot, "gone.txt"), filepath.Join(w.FileRoot, "stale alias"))
 		_ = os.Symlink(filepath.Join(w.FileRoot, "gone folder"), filepath.Join(w.FileRoot, "dir", "stale alias 2"))
